@@ -119,6 +119,11 @@ func judge(w *world, c *clientView, cs *caseSpec, raw []byte) verdict {
 	if cs.rawClass == rawBroken || pathMissing(cs.obj, nd) {
 		return verdict{mustReject, "merkle-path-missing-from-proof"}
 	}
+	if cs.rawClass == rawFromObj && cs.obj != nil && len(cs.obj.StorageProof) != 1 {
+		// "the storage proof proves ...": one storage proof. A list that is empty (truncated) or carries further entries
+		// (padded) is one of the shapes the statement names as rejected, whatever else is true
+		return verdict{mustReject, "storage-proof-list-truncated-or-padded"}
+	}
 	return verdict{either, "true-fact-noncanonical-proof"}
 }
 
